@@ -68,8 +68,10 @@ func count(s *Store, ctx context.Context, builders ...func(query *bun.SelectQuer
 	for _, builder := range builders {
 		query = query.Apply(builder)
 	}
+	// the sub-query is passed as an argument: formatting its already-formatted text a second time would
+	// interpret any '?' inside a client-supplied literal as a placeholder
 	return s.bucket.db.NewSelect().
-		TableExpr("(" + query.String() + ") data").
+		TableExpr("(?) data", query).
 		Count(ctx)
 }
 
